@@ -4,8 +4,8 @@
 import random
 
 class G:
-    def __init__(self, rng, size):
-        self.r = rng; self.size = size; self.h = 0; self.b = 0; self.n = 0
+    def __init__(self, rng, size, emph=()):
+        self.r = rng; self.size = size; self.h = 0; self.b = 0; self.n = 0; self.emph = list(emph)
         self.scopes = [{}]            # name -> kind
         self.in_fn = 0; self.in_loop = 0
     def fresh(self, p):
@@ -97,8 +97,10 @@ class G:
         return ['    ' + l for l in (out or ['print(0)'])]
     def stmt(self, d):
         r = self.r; self.size -= 1
-        kinds = ['decl'] * 4 + ['print'] * 4 + ['assign', 'assign', 'opassign', 'destruct', 'setidx', 'setprop']
-        if d < 3: kinds += ['if', 'if', 'while', 'forlist', 'forobj', 'forstr', 'fn', 'closure', 'method', 'block']
+        kinds = ['decl'] * 4 + ['print'] * 4 + ['assign', 'assign', 'opassign', 'destruct', 'setidx', 'setprop', 'alias', 'eq', 'opelem', 'rangeassign', 'spreadcall', 'objkey', 'strops']
+        kinds += [k for k in self.emph for _ in range(3)]
+        if d < 3: kinds += ['if', 'if', 'while', 'forlist', 'forobj', 'forstr', 'fn', 'closure', 'method', 'block', 'forpat', 'fnpat', 'loopclosure']
+        kinds = [k for k in kinds if d < 3 or k not in ('forpat', 'fnpat', 'loopclosure', 'if', 'while', 'forlist', 'forobj', 'forstr', 'fn', 'closure', 'method', 'block')]
         if self.fns: kinds += ['callstmt']
         if self.in_fn: kinds += ['return']
         if self.in_loop: kinds += ['jump']
@@ -122,6 +124,57 @@ class G:
             if c < 0.7:
                 e = self.atom('list', 1); self.declare(a, 'int'); self.declare(b, 'list'); return ['[%s, ..%s] := %s + [1]' % (a, b, e)]
             e = self.atom('obj', 1); self.declare(a, 'int'); self.declare(b, 'obj'); return ['{"a": %s, ..%s} := %s' % (a, b, e)]
+        if k == 'alias':
+            kind = r.choice(['list', 'obj']); vs = self.vars_of(kind)
+            if not vs: return ['print(4)']
+            n = self.fresh('v'); self.declare(n, kind)
+            return [r.choice(['%s := %s', '%s := [%s][0]', '%s := (fn (q) {\n    return q\n})(%s)']) % (n, r.choice(vs))]
+        if k == 'eq':
+            kind = r.choice(['list', 'obj']); vs = self.vars_of(kind)
+            if len(vs) < 1: return ['print(5)']
+            a, b = r.choice(vs), r.choice(vs)
+            return ['print(%s == %s)' % (a, b), 'print(%s === %s)' % (a, b), 'print(%s != %s)' % (a, self.atom(kind, 2))]
+        if k == 'opelem':
+            lv, ov = self.vars_of('list'), self.vars_of('obj')
+            c = r.random()
+            if c < 0.4 and lv: return ['%s[0] %s= %s' % (r.choice(lv), r.choice(['+', '-', '*']), self.expr('int', 2))]
+            if c < 0.7 and ov: return [r.choice(['%s.a %s= %s', '%s["a"] %s= %s']) % (r.choice(ov), r.choice(['+', '-']), self.expr('int', 2))]
+            if ov: return ['%s.b += %s' % (r.choice(ov), self.atom('list', 2))]
+            return ['print(6)']
+        if k == 'rangeassign':
+            lv = self.vars_of('list')
+            if not lv: return ['print(7)']
+            return [r.choice(['%s[0:1] = [%s]', '%s[:1] = [%s]', '%s[0:1] = "%s"[0:1]']) % (r.choice(lv), self.expr('int', 2) if r.random() < 2 else 'z')][:1] if r.random() < 0.7 else ['%s[0:1] = "z"' % r.choice(lv)]
+        if k == 'spreadcall':
+            fs = [f for f in self.fns if f[1] and all(kk == 'int' for kk in f[1])]
+            if not fs: return ['print(8)']
+            f = r.choice(fs); args = '[%s]' % ', '.join(self.expr('int', 2) for _ in f[1])
+            return ['print(%s(%s..))' % (f[0], args)]
+        if k == 'objkey':
+            ov = self.vars_of('obj')
+            if not ov: return ['print(9)']
+            o = r.choice(ov); key = r.choice(['"a"', '"zz"', '"b"', '"" + "a"'])
+            return [r.choice(['%s[%s] = %s' % (o, key, self.expr('int', 2)), 'print(%s)' % o, 'for [kk, vv] in %s {\n    print(kk)\n}' % o, 'print({%s.., "a": 0} == {"a": 0, %s..})' % (o, o)])]
+        if k == 'strops':
+            sv = self.vars_of('str')
+            if not sv: return ['print("")']
+            x = r.choice(sv)
+            return [r.choice(['print(%s[0:1] + %s[1:])' % (x, x), 'for [si, sc] in %s {\n    print(sc == %s[si])\n}' % (x, x), 'print($"${%s}-${%s + "é"}")' % (x, x), 'print((%s + %s)->len())' % (x, x)])]
+        if k == 'forpat':
+            a, b, c2 = self.fresh('k'), self.fresh('e'), self.fresh('e'); self.in_loop += 1
+            body = self.block(r.randint(1, 2), d + 1, {a: 'int', b: 'int', c2: 'list'}); self.in_loop -= 1
+            return ['for [%s, [%s, ..%s]] in [[%s, 1], [%s, 2, 3]] {' % (a, b, c2, self.expr('int', 2), self.expr('int', 2))] + body + ['}']
+        if k == 'fnpat':
+            f = self.fresh('f'); a, b, c2 = self.fresh('p'), self.fresh('p'), self.fresh('p')
+            self.in_fn += 1; loop = self.in_loop; self.in_loop = 0
+            body = self.block(r.randint(1, 2), d + 1, {a: 'int', b: 'list', c2: 'int'})
+            self.in_fn -= 1; self.in_loop = loop
+            return ['fn %s([%s, ..%s], {"a": %s}) {' % (f, a, b, c2)] + body + ['    return %s + %s' % (a, c2), '}', 'print(%s(%s + [1], %s))' % (f, self.atom('list', 2), self.atom('obj', 2))]
+        if k == 'loopclosure':
+            acc = self.fresh('acc'); w = self.fresh('w'); i = self.fresh('i')
+            kind = r.choice(['while', 'for'])
+            head = ['%s := []' % acc] + (['%s := 0' % i, 'while %s < 2 {' % i, '    %s += 1' % i, '    %s := %s * 10' % (w, i)] if kind == 'while' else ['for [%s, %s] in [%s, 5] {' % (i, w, self.expr('int', 2))])
+            return head + ['    %s += [fn () {' % acc, '        %s += 1' % w, '        return %s' % w, '    }]', '}', 'print(%s[0]())' % acc, 'print(%s[1]())' % acc, 'print(%s[0]())' % acc]
         if k == 'setidx':
             vs = self.vars_of('list')
             if not vs: return ['print(2)']
@@ -156,9 +209,10 @@ class G:
             self.declare(f, ('fn', tuple(pk)))
             return ['fn %s(%s) {' % (f, ', '.join(ps))] + body + ['    return %s' % ret, '}']
         if k == 'closure':
+            init = self.expr('int', 2)
             c = self.fresh('c'); g = self.fresh('g'); self.declare(c, 'int')
             self.declare(g, ('fn', ()))
-            return ['%s := %s' % (c, self.expr('int', 2)), '%s := fn () {' % g, '    %s += 1' % c, '    return %s' % c, '}', 'print(%s() + %s())' % (g, g)]
+            return ['%s := %s' % (c, init), '%s := fn () {' % g, '    %s += 1' % c, '    return %s' % c, '}', 'print(%s() + %s())' % (g, g)]
         if k == 'method':
             o = self.fresh('m'); self.declare(o, 'objm')
             return ['%s := {"v": %s, "get": fn (k) {' % (o, self.expr('int', 2)), '    this.v += k', '    return this.v', '}}', 'print(%s.get(%s))' % (o, self.expr('int', 2)), 'h%s := null' % o, 'h%s = %s["get"]' % (o, o), 'print(h%s(1))' % o, 'g%s := %s.get' % (o, o), 'print(g%s(2))' % o, 'print(%s.v)' % o]
@@ -168,18 +222,24 @@ class G:
         if k == 'jump': return ['if %s {' % self.expr('bool', 1), '    %s' % r.choice(['break', 'continue']), '}']
         raise ValueError(k)
 
-def gen(seed, size):
+def gen(seed, size, emph=()):
     rng = random.Random(seed)
-    g = G(rng, size)
+    g = G(rng, size, emph)
     lines = []
     while g.size > 0: lines += g.stmt(0)
     for kind in ('int', 'str', 'list', 'obj'):
         for v in g.vars_of(kind)[:3]: lines.append('print(%s)' % v)
     return '\n'.join(lines) + '\n'
 
-def templates(tier, seed=0):
-    n = 60 if tier == 'quick' else 500
-    return [{'name': 'rand-%d' % i, 'src': gen(seed * 1000003 + i, 8 + i % 13)} for i in range(n)]
+EMPH = {
+    'C04': ['fn', 'closure', 'loopclosure', 'block', 'decl', 'assign'], 'C20': ['decl', 'assign', 'destruct', 'block', 'fn'], 'C05': ['alias', 'opelem', 'setidx', 'setprop', 'rangeassign', 'eq'],
+    'C07': ['while', 'forlist', 'forobj', 'forstr', 'if', 'fn', 'block'], 'C12': ['objkey', 'setprop', 'opelem', 'alias'], 'C13': ['destruct', 'forpat', 'fnpat', 'spreadcall'], 'C14': ['fn', 'method', 'spreadcall', 'closure', 'fnpat'],
+    'C10': ['eq', 'alias'], 'C11': ['rangeassign', 'setidx', 'strops'], 'C15': ['strops'], 'C17': ['fn', 'method', 'callstmt'], 'C19': ['print', 'objkey'], 'C06': ['opassign', 'opelem'], 'C16': ['eq', 'opelem'],
+}
+def templates(tier, seed=0, n=None, prop=None):
+    if n is None: n = 60 if tier == 'quick' else 500
+    off = (int(prop[1:]) * 7919) if prop else 0
+    return [{'name': 'rand-%d' % i, 'src': gen(seed * 1000003 + off + i, 8 + i % 13, EMPH.get(prop, ()))} for i in range(n)]
 
 def role(v):
     return 'randprog:%s:%s:%s' % (v.get('template', ''), v['aspect'], v['ref'])
